@@ -146,14 +146,16 @@ def seq_of(ctx, terms):
     return z3.Concat(*units)
 
 
+DEFAULT_TIMEOUT_MS = 90_000      # wall-clock ceiling per query (rlimit is the primary, deterministic bound)
+
+
 def check(ctx: Ctx, formulas, rlimit=None, timeout_ms=None):
     """Satisfiability of axioms + formulas. Returns ('sat', model)|('unsat', None)|('unknown', reason)."""
     import time
     s = z3.Solver()
     if rlimit:
         s.set("rlimit", rlimit)
-    if timeout_ms:
-        s.set("timeout", timeout_ms)
+    s.set("timeout", timeout_ms or DEFAULT_TIMEOUT_MS)
     for a in ctx.axioms:
         s.add(a)
     for f in formulas:
@@ -166,6 +168,9 @@ def check(ctx: Ctx, formulas, rlimit=None, timeout_ms=None):
         return "sat", s.model()
     if r == z3.unsat:
         return "unsat", None
+    import os
+    if os.environ.get("PYVC_DUMP_UNKNOWN"):
+        open(os.environ["PYVC_DUMP_UNKNOWN"], "w").write(s.to_smt2())
     return "unknown", s.reason_unknown()
 
 
